@@ -5,6 +5,7 @@
 import Std.Data.HashMap
 import EpsModel.Show
 import EpsModel.Mask
+import EpsModel.Schema
 import EpsModel.XXH3
 open Eps
 
@@ -91,6 +92,18 @@ def step (st : St) (line : String) : St × Option String :=
       match i.toNat?.bind (st.types[·]?) with
       | some t => (st, some ("layout " ++ (if t.isZC then toString t.sizeOf ++ " " ++ toString t.alignOf ++ " " ++ toString t.maxSizeOf else "deep")))
       | none => (st, some "notype")
+  | ["schema", i, val] =>
+      match i.toNat?.bind (st.types[·]?), parseVal val with
+      | some t, some v =>
+        if !t.wt v then (st, some "illtyped") else
+        let name := st.names.getD i.toNat! []
+        let hdr := t.header H name
+        let s := t.ser H name v
+        let m := trues hdr.length ++ t.encMask v hdr.length
+        let rows := t.schema name v
+        (st, some ("schema ok " ++ maskedHex s m ++ " " ++
+          String.join (rows.map fun r => toString r.depth ++ "," ++ toString r.off ++ "," ++ toString r.size ++ "," ++ toString r.align ++ ";")))
+      | _, _ => (st, some "badval")
   | ["xxh", h] => (st, some ("xxh " ++ toString (H (unhex h.toList))))
   | [""] => (st, none)
   | _ => (st, some "bad-op")
